@@ -159,3 +159,45 @@ func bocMutateDescriptor(b []byte, pick, what, val int) []byte {
 	}
 	return out
 }
+
+// bocFillCell overwrites the data of one cell of a container with a run of one-bits (optionally behind a single
+// zero bit, optionally making the length a whole number of bytes) or with zeros: unary-coded lengths and labels
+// then run to the very end of the cell.
+func bocFillCell(b []byte, pick, how int) []byte {
+	offs, _, ok := bocCellDescriptors(b)
+	if !ok {
+		return b
+	}
+	out := append([]byte{}, b...)
+	o := offs[pick%len(offs)]
+	d1, d2 := out[o], out[o+1]
+	start := o + 2
+	if d1&16 != 0 {
+		lvl := 0
+		for m := d1 >> 5; m != 0; m >>= 1 {
+			lvl += int(m & 1)
+		}
+		start += (lvl + 1) * 34
+	}
+	n := int(d2>>1) + int(d2&1)
+	if n == 0 || start+n > len(out) {
+		return out
+	}
+	for i := 0; i < n; i++ {
+		switch how % 3 {
+		case 0:
+			out[start+i] = 0xff
+		case 1:
+			out[start+i] = 0xff
+			if i == 0 {
+				out[start] = 0x7f
+			}
+		default:
+			out[start+i] = 0
+		}
+	}
+	if (how/3)%2 == 0 && d2&1 == 1 {
+		out[o+1] = d2 + 1 // the same number of bytes, now all of them data: no completion tag
+	}
+	return out
+}
